@@ -104,7 +104,12 @@ func buildBinary(profile string, race bool) string {
 		}
 	}
 	if out, err := run(verifDir, goEnv(), instr, "-repo", repoDir, "-out", ovDir, "-profile", profile, "-shim", filepath.Join(verifDir, "tools", "instr", "shim")); err != nil {
-		fatalHarness("instrument /repo: %v\n%s", err, out)
+		// never let a tree the instrumenter cannot gate go unchecked: fall back to the shim-only overlay
+		// (sequential explorers are unaffected, scheduled ones see membrane yield points only)
+		fmt.Printf("WARNING instrumenter failed with profile %s (%v): falling back to profile none\n%s\n", profile, err, out)
+		if out2, err2 := run(verifDir, goEnv(), instr, "-repo", repoDir, "-out", ovDir, "-profile", "none", "-shim", filepath.Join(verifDir, "tools", "instr", "shim")); err2 != nil {
+			fatalHarness("instrument /repo: %v\n%s", err2, out2)
+		}
 	}
 	bin := filepath.Join(outDir, "bin", "props-"+profile+".test")
 	args := []string{"test", "-c", "-vet=off", "-tags", "verif", "-overlay", filepath.Join(ovDir, "overlay.json"), "-o", bin}
